@@ -309,6 +309,7 @@ class Report:
         self.impl_spec_failures = 0
         self.panics = 0
         self.traces = 0
+        self.out = []                  # VIOLATION / KNOWN-FINDING lines, printed by finish()
         self.violations = []           # (replay_path, found_input, what)
         self.pending = []              # broken obligations / correspondences without a failing input (yet)
         self.known = []
@@ -345,28 +346,39 @@ class Report:
             self.pending.append((path, what))
             return
         self.violations.append((path, found_input, what))
-        print(f"VIOLATION property={self.prop} replay={path}")
-        print(f"  -> {what}")
+        # printed by finish(): a pass that reports something is repeated once before anything is said (runner.py)
+        self.out.append(f"VIOLATION property={self.prop} replay={path}")
+        self.out.append(f"  -> {what}")
 
     def flush_pending(self):
         if self.pending and not self.violations:
             path, what = self.pending[0]
             self.violations.append((path, False, what))
-            print(f"VIOLATION property={self.prop} replay={path} no-failing-input-found")
-            print(f"  -> {what}")
+            self.out.append(f"VIOLATION property={self.prop} replay={path} no-failing-input-found")
+            self.out.append(f"  -> {what}")
             for p2, w2 in self.pending[1:4]:
-                print(f"  (also: {w2[:200]} -> {p2})")
+                self.out.append(f"  (also: {w2[:200]} -> {p2})")
         elif self.pending:
             for p2, w2 in self.pending[:4]:
-                print(f"  (obligation / correspondence also broken: {w2[:200]} -> {p2})")
+                self.out.append(f"  (obligation / correspondence also broken: {w2[:200]} -> {p2})")
 
     def known_finding(self, text):
         if text not in self.known:
             self.known.append(text)
-            print(f"KNOWN-FINDING: property={self.prop} {text}")
+            self.out.append(f"KNOWN-FINDING: property={self.prop} {text}")
+
+    def alarmed(self):
+        return bool(self.violations or self.pending)
+
+    def first_alarm(self):
+        if self.violations:
+            return self.violations[0][2]
+        return self.pending[0][1] if self.pending else ""
 
     def finish(self):
         self.flush_pending()
+        for l in self.out:
+            print(l)
         wall = time.time() - self.t0
         n_ob = len(self.obligations)
         n_ok = sum(1 for _, ok, _ in self.obligations if ok)
